@@ -2,5 +2,5 @@ SPECIFICATION Spec
 CONSTANTS
   MaxLen = 6
   MaxCap = 7
-INVARIANTS AccessorsAgree RingLive EmitCont
+INVARIANTS AccessorsAgree RingLive WriteMapOK EmitCont
 CHECK_DEADLOCK FALSE
